@@ -41,7 +41,7 @@ func (w *world) checkIdentities(rm *metricdata.ResourceMetrics, res *result) {
 	got := map[string]meta{}
 	for _, sm := range rm.ScopeMetrics {
 		for _, m := range sm.Metrics {
-			got[m.Name] = meta{scopeID{sm.Scope.Name, sm.Scope.Version, sm.Scope.SchemaURL, tenantOf(sm.Scope.Attributes)}, m.Description, m.Unit}
+			got[ikey(m.Name, m.Description, m.Unit)] = meta{scopeID{sm.Scope.Name, sm.Scope.Version, sm.Scope.SchemaURL, tenantOf(sm.Scope.Attributes)}, m.Description, m.Unit}
 		}
 	}
 	descs := map[string]map[string]bool{}
@@ -52,7 +52,7 @@ func (w *world) checkIdentities(rm *metricdata.ResourceMetrics, res *result) {
 		descs[x.name][x.desc+"|"+x.scope.name] = true
 	}
 	for _, x := range w.insts {
-		g, ok := got[x.name]
+		g, ok := got[x.key()]
 		if !ok || x.scope.name == "" || len(descs[x.name]) > 1 {
 			continue // (a name shared by different identities, e.g. the empty name, is not attributable)
 		}
